@@ -28,7 +28,43 @@ static long n_ops = 0, n_tx = 0, n_ev = 0, n_asdu = 0, n_closed = 0, n_iframes_r
 
 static int hid_of(MasterConnection c) { return (c && c->socket) ? hid_of_sock[((SimSocket*) c->socket)->id] : -1; }
 
-static void on_write(SimSocket* s, const uint8_t* buf, int n) { static char h[600]; hexs(h, buf, n); logf_("tx h%d %s", hid_of_sock[s->id], h); n_tx++; }
+/* ---- C13 order oracle (model-free): replies accepted by sendASDU must appear on the wire in issue order ---- */
+#define MAXEXP 256
+static uint8_t exp_b[64][MAXEXP][256]; static int exp_n[64][MAXEXP]; static int exp_cnt[64];
+static int order_fail = 0; static char order_info[900]; static long n_replies_tracked = 0;
+static void exp_clear(int hid) { if (hid >= 0 && hid < 64) exp_cnt[hid] = 0; }
+static void exp_push(int hid, const uint8_t* b, int n) { if (hid < 0 || hid >= 64 || exp_cnt[hid] >= MAXEXP || n > 256) return; memcpy(exp_b[hid][exp_cnt[hid]], b, n); exp_n[hid][exp_cnt[hid]++] = n; n_replies_tracked++; }
+static void exp_seen(int hid, const uint8_t* b, int n)
+{
+    if (hid < 0 || hid >= 64) return;
+    for (int k = 0; k < exp_cnt[hid]; k++) if (exp_n[hid][k] == n && !memcmp(exp_b[hid][k], b, n)) {
+        if (k > 0 && (exp_n[hid][0] != n || memcmp(exp_b[hid][0], b, n))) {
+            if (!order_fail) { char h1[520], h2[520]; hexs(h1, exp_b[hid][0], exp_n[hid][0] > 250 ? 250 : exp_n[hid][0]); hexs(h2, b, n > 250 ? 250 : n);
+                snprintf(order_info, sizeof order_info, "connection h%d at ops-file offset %ld: reply %s was accepted earlier and is still parked, but the later reply %s (issue position %d) was transmitted first", hid, (long) ftell(ops), h1, h2, k); }
+            order_fail++;
+        }
+        memmove(&exp_b[hid][k], &exp_b[hid][k + 1], (size_t) (exp_cnt[hid] - k - 1) * 256); memmove(&exp_n[hid][k], &exp_n[hid][k + 1], sizeof(int) * (exp_cnt[hid] - k - 1)); exp_cnt[hid]--;
+        return;
+    }
+}
+/* ---- C03 wire oracle (model-free): every write is one well-formed APDU; N(S) of successive I-frames counts up mod 32768 ---- */
+static int wire_fail = 0; static char wire_info[700]; static int next_ns[4096]; static long n_iframes_tx = 0;
+static void wire_check(int hid, const uint8_t* b, int n)
+{
+    const char* why = NULL;
+    if (n < 6 || b[0] != 0x68) why = "start octet / minimum length";
+    else if (b[1] != n - 2 || b[1] < 4 || b[1] > 253) why = "length octet";
+    else if ((b[2] & 1) == 0) { int ns = (b[3] * 256 + (b[2] & 0xfe)) / 2; n_iframes_tx++;
+        if ((b[4] & 1) != 0) why = "I-format control field";
+        else if (hid >= 0 && hid < 4096) { if (next_ns[hid] >= 0 && ns != next_ns[hid]) why = "N(S) not previous + 1 mod 32768"; next_ns[hid] = (ns + 1) % 32768; } }
+    else if ((b[2] & 3) == 1) { if (n != 6 || b[2] != 1 || b[3] != 0 || (b[4] & 1)) why = "S-format control field"; }
+    else { if (n != 6 || b[3] || b[4] || b[5] || !(b[2] == 0x0b || b[2] == 0x23 || b[2] == 0x83 || b[2] == 0x43 || b[2] == 0x07 || b[2] == 0x13)) why = "U-format control field"; }
+    if (why && !wire_fail) { char h[600]; hexs(h, b, n > 280 ? 280 : n); snprintf(wire_info, sizeof wire_info, "connection h%d at ops-file offset %ld wrote %s: %s", hid, (long) ftell(ops), h, why); }
+    if (why) wire_fail++;
+}
+static void on_write(SimSocket* s, const uint8_t* buf, int n) { static char h[600]; hexs(h, buf, n); logf_("tx h%d %s", hid_of_sock[s->id], h); n_tx++;
+    wire_check(hid_of_sock[s->id], buf, n); }
+static int kwin_fail = 0; static char kwin_info[300];
 static void on_event(void* p, IMasterConnection con, CS104_PeerConnectionEvent ev)
 {
     static const char* N[] = { "OPENED", "CLOSED", "ACTIVATED", "DEACTIVATED" };
@@ -40,7 +76,18 @@ static bool on_asdu(void* p, IMasterConnection con, CS101_ASDU asdu)
     static char h[600]; hexs(h, asdu->asdu, asdu->asduHeaderLength + asdu->payloadSize);
     int hid = hid_of((MasterConnection) con->object);
     logf_("asdu h%d %s", hid, h); n_asdu++;
-    for (int i = 0; i < replies; i++) { bool ok = IMasterConnection_sendASDU(con, asdu); logf_("reply h%d %d", hid, ok ? 1 : 0); }
+    for (int i = 0; i < replies; i++) {
+        MasterConnection mc = (MasterConnection) con->object;
+        int parked_before = mc->highPrioQueue ? mc->highPrioQueue->entryCounter : 0; long tx_before = n_tx;
+        bool ok = IMasterConnection_sendASDU(con, asdu); logf_("reply h%d %d", hid, ok ? 1 : 0);
+        n_replies_tracked++;
+        /* order oracle: a reply written to the socket at once while earlier replies are still parked overtakes them */
+        if (ok && n_tx > tx_before && parked_before > 0) {
+            if (!order_fail) { char h2[520]; hexs(h2, asdu->asdu, asdu->asduHeaderLength + asdu->payloadSize > 250 ? 250 : asdu->asduHeaderLength + asdu->payloadSize);
+                snprintf(order_info, sizeof order_info, "connection h%d at ops-file offset %ld: reply %s was transmitted at once although %d earlier replies were still parked", hid, (long) ftell(ops), h2, parked_before); }
+            order_fail++;
+        }
+    }
     return true;
 }
 
@@ -51,6 +98,8 @@ static void summary(void)
     for (int i = 0; i < CONFIG_CS104_MAX_CLIENT_CONNECTIONS; i++) {
         MasterConnection c = slave->masterConnections[i];
         if (c && c->isUsed) {
+            { int cnt = 0; if (c->oldestSentASDU != -1) { int j = c->oldestSentASDU; for (;;) { cnt++; if (j == c->newestSentASDU || cnt > 40000) break; j = (j + 1) % c->maxSentASDUs; } }
+              if (cnt > slave->conParameters.k) { if (!kwin_fail) snprintf(kwin_info, sizeof kwin_info, "connection h%d at ops-file offset %ld has %d unacknowledged I-frames outstanding with k=%d", hid_of(c), (long) ftell(ops), cnt, slave->conParameters.k); kwin_fail++; } }
             fprintf(impl, " [%d:h%d st=%d run=%d vs=%d vr=%d un=%d rb=%d win=", i, hid_of(c), c->state, c->isRunning, c->sendCount, c->receiveCount, c->unconfirmedReceivedIMessages, c->recvBufPos);
             if (c->oldestSentASDU == -1) fprintf(impl, "-");
             else { int j = c->oldestSentASDU; for (;;) { fprintf(impl, "%s%d", j == c->oldestSentASDU ? "" : ",", c->sentASDUs[j].seqNo); if (j == c->newestSentASDU) break; j = (j + 1) % c->maxSentASDUs; } }
@@ -103,13 +152,14 @@ static int op_conn(const char* peer)
 {
     fprintf(ops, "s.conn %s\n", peer); fflush(ops);
     SimSocket* s = sim_incoming(peer); hid_of_sock[s->id] = n_hid; sock_of_hid[n_hid] = s;
+    if (n_hid < 4096) next_ns[n_hid] = 0;
     fprintf(impl, "h%d\n", n_hid); return n_hid++;
 }
 static void op_rx(int h, const uint8_t* b, int n) { static char hx[1200]; hexs(hx, b, n); fprintf(ops, "s.rx %d %s\n", h, hx); fflush(ops); sim_feed(sock_of_hid[h], b, n); fprintf(impl, "ok\n"); }
 static void op_close(int h) { fprintf(ops, "s.close %d\n", h); fflush(ops); sim_peer_close(sock_of_hid[h]); fprintf(impl, "ok\n"); }
 static void op_wfail(int h, int v) { fprintf(ops, "s.wfail %d %d\n", h, v); fflush(ops); sock_of_hid[h]->write_fail = v; fprintf(impl, "ok\n"); }
 static void op_answers(const int* a, int n) { fprintf(ops, "s.answers"); for (int i = 0; i < n; i++) fprintf(ops, " %d", a[i]); fprintf(ops, "\n"); fflush(ops); memcpy(answers, a, n * sizeof(int)); n_answers = n; answers_pos = 0; fprintf(impl, "ok\n"); }
-static void op_tick(int dt) { fprintf(ops, "s.tick %d\n", dt); fflush(ops); sim_advance(dt); sim_hal_calls = 0; CS104_Slave_tick(slave); flush_obs(); }
+static void op_tick(int dt) { n_ops++; fprintf(ops, "s.tick %d\n", dt); fflush(ops); sim_advance(dt); sim_hal_calls = 0; CS104_Slave_tick(slave); flush_obs(); }
 static void op_enq(const uint8_t* b, int n)
 {
     static char hx[1200]; hexs(hx, b, n); fprintf(ops, "s.enq %s\n", hx); fflush(ops);
@@ -125,7 +175,7 @@ static void op_preset(int h, int vs, int vr)
 {
     fprintf(ops, "s.preset %d %d %d\n", h, vs, vr); fflush(ops);
     MasterConnection c = conn_of_hid(h);
-    if (c && c->oldestSentASDU == -1) { c->sendCount = vs; c->receiveCount = vr; fprintf(impl, "ok\n"); } else fprintf(impl, "no\n");
+    if (c && c->oldestSentASDU == -1) { c->sendCount = vs; c->receiveCount = vr; if (h < 4096) next_ns[h] = vs; fprintf(impl, "ok\n"); } else fprintf(impl, "no\n");
 }
 
 /* ---- generation ---- */
@@ -229,6 +279,9 @@ int main(int argc, char** argv)
     }
     if (slave) { CS104_Slave_stopThreadless(slave); CS104_Slave_destroy(slave); }
     fclose(ops); fclose(impl);
-    printf("HISTO tx=%ld events=%ld asdu_callbacks=%ld closed=%ld iframes_rx=%ld sem_waits=%ld sem_max=%d sem_violations=%d deadlock=%d live_sem=%d live_sock=%d %s\n", n_tx, n_ev, n_asdu, n_closed, n_iframes_rx, sim_sem_waits, sim_sem_max_value, sim_sem_violations, sim_deadlock, sim_live_semaphores, sim_live_sockets, sim_sem_violation_where);
+    if (order_fail) printf("ORDER_FAIL %s\n", order_info);
+    if (wire_fail) printf("WIRE_FAIL %s\n", wire_info);
+    if (kwin_fail) printf("KWIN_FAIL %s\n", kwin_info);
+    printf("HISTO iframes_tx=%ld wire_violations=%d kwin_violations=%d replies_tracked=%ld order_violations=%d tx=%ld events=%ld asdu_callbacks=%ld closed=%ld iframes_rx=%ld sem_waits=%ld sem_max=%d sem_violations=%d deadlock=%d live_sem=%d live_sock=%d %s\n", n_iframes_tx, wire_fail, kwin_fail, n_replies_tracked, order_fail, n_tx, n_ev, n_asdu, n_closed, n_iframes_rx, sim_sem_waits, sim_sem_max_value, sim_sem_violations, sim_deadlock, sim_live_semaphores, sim_live_sockets, sim_sem_violation_where);
     return 0;
 }
